@@ -16,7 +16,7 @@ build() { # $1 = profile flag(s)
         exit 2
     fi
 }
-needs_relassert() { case "$1" in C15|C08) return 0;; *) return 1;; esac; }
+needs_relassert() { case "$1" in C15) return 0;; *) return 1;; esac; }
 case "$1" in
     setup)
         build "--release"
